@@ -26,6 +26,7 @@ RULES = {
     'R5': 'no RefCell Ref/RefMut in the coroutine layout of the fetching future',
     'R6': 'heartbeat phase order; non-complete response is put back unchanged',
     'R7': 'completion of the page counter for every remaining_follow_ups in 0..255',
+    'R8': 'a block delivered again is refused: duplicate check over all successors of its parent (= C10.R1)',
 }
 ASSUMPTIONS = ['ic-cdk drops the locals of a cancelled/trapped call future (guard Drop runs)']
 
@@ -33,6 +34,15 @@ SS = 'ic_btc_canister::state::SyncingState'
 
 
 def run(ctx):
+    _run(ctx)
+    # R8: "no block is applied twice": a block delivered again is refused whichever sibling arrived in
+    # between (shared with C10.R1 `duplicate-check-all-successors`)
+    from sa.engine import SubCtx
+    from rules import c10
+    c10.dup_check(SubCtx(ctx, {'R1': 'R8'}))
+
+
+def _run(ctx):
     prog = ctx.prog
     # ---------------- R1 -----------------------------------------------------------------------
     cs = prog.callers('ic_btc_canister::runtime::call_get_successors')
